@@ -411,7 +411,7 @@ Qed.
 (* every admissible pair can occur: a constructive gap stream that emits it *)
 Theorem gnp_every_pair_possible n dir p :
   0 <= n <= i32_max -> gnp_pair n dir p ->
-  exists gaps l, Forall (fun k => 0 <= k) gaps /\ gnp_pairs n dir gaps = Ok l /\ In p l.
+  exists gaps, Forall (fun k => 0 <= k) gaps /\ gnp_pairs n dir gaps = Ok [p].
 Proof.
   intros Hn Hp. destruct p as [a b].
   exists [gnp_index n dir (a, b); gnp_slots n dir].
@@ -439,10 +439,37 @@ Proof.
       destruct (Z.ltb_spec (gnp_index n false (a, b)) (tri n)); [|lia].
       destruct (Z.ltb_spec (gnp_index n false (a, b) + 1 + tri n) (tri n)); [lia|]. reflexivity. }
   destruct (gnp_pairs_slots n dir _ _ Hn Hg W) as (l & E & M & F).
-  exists l. repeat split; auto.
+  split; [exact Hg|].
   destruct l as [|q [|q' l']]; cbn [map] in M; try discriminate.
-  injection M as M. inversion F as [|? ? Fq _]; subst. left.
+  injection M as M. inversion F as [|? ? Fq _]; subst.
+  assert (q = (a, b)); [|now subst].
   unfold gnp_index, gnp_pair, dir_pair, und_pair in *. destruct dir.
   - apply (dir_index_inj n); cbn [fst snd] in *; auto; lia.
   - apply und_index_inj; cbn [fst snd] in *; auto; lia.
+Qed.
+
+(* whatever the stream: either it is exhausted (OutOfFuel), or the loop returns
+   admissible, pairwise distinct pairs — never a panic, never anything else *)
+Theorem gnp_pairs_total n dir gaps :
+  0 <= n <= i32_max -> Forall (fun k => 0 <= k) gaps ->
+  gnp_pairs n dir gaps = OutOfFuel \/
+  exists l, gnp_pairs n dir gaps = Ok l /\ Forall (gnp_pair n dir) l /\ NoDup l.
+Proof.
+  intros Hn Hg. destruct (gnp_walk n dir gaps) as [ts|] eqn:W.
+  - right. destruct (gnp_pairs_slots n dir gaps ts Hn Hg W) as (l & E & M & F).
+    exists l. repeat split; auto.
+    apply (NoDup_of_map (gnp_index n dir)). rewrite M. apply ssorted_NoDup.
+    unfold gnp_walk, dir_walk, und_walk in W. destruct dir.
+    + eapply walk_incr; eauto. apply bump_ge.
+    + eapply walk_incr; eauto. cbn. lia.
+  - unfold gnp_walk, gnp_pairs, dir_walk, und_walk in *. destruct dir.
+    + destruct (Z.eq_dec n 0) as [-> | Hn0].
+      * right. exists []. rewrite dir_loop_done by lia. repeat split; constructor.
+      * left. pose proof (dir_loop_spec gaps n 0 (-1) ltac:(lia)) as S.
+        replace (0 * n + -1) with (-1) in S by lia. rewrite W in S. apply S; auto.
+        unfold dir_state. lia.
+    + destruct (Z_le_gt_dec n 1).
+      * right. exists []. rewrite und_loop_done by lia. repeat split; constructor.
+      * left. pose proof (und_loop_spec gaps n 1 (-1) ltac:(lia) ltac:(lia) ltac:(lia) ltac:(lia) Hg) as S.
+        change (tri 1 + -1) with (-1) in S. now rewrite W in S.
 Qed.
